@@ -274,7 +274,7 @@ def enrich(data, rng, per_part=12):
     return out.getvalue(), added
 
 
-def renumber_slides(data, rng):
+def renumber_slides(data, rng, kind=None):
     """the same deck with its slide parts under other numbers (a gap, a permutation, a number above the count): the first
     access to Presentation.slides renames them"""
     import re
@@ -282,8 +282,15 @@ def renumber_slides(data, rng):
     nums = sorted(int(m.group(1)) for n in z.namelist() for m in [re.fullmatch(r"ppt/slides/slide(\d+)\.xml", n)] if m)
     if len(nums) < 2:
         return None
-    kind = rng.choice(["gap", "permute", "high"])
-    if kind == "gap":
+    kind = kind or rng.choice(["gap", "permute", "high", "last-is-count"])
+    if kind == "last-is-count" and len(nums) >= 3:
+        # out of sequence, yet the LAST slide carries the number that equals the count (1, 4, 3): a test of the last name alone sees nothing
+        pool = [k for k in range(1, len(nums) + 4) if k != len(nums)]
+        while True:
+            new = rng.sample(pool, len(nums) - 1) + [len(nums)]
+            if new != nums:
+                break
+    elif kind == "gap" or kind == "last-is-count":
         new = [n if i == 0 else n + 1 for i, n in enumerate(nums)]          # 1,3,4,...
     elif kind == "permute":
         new = nums[1:] + nums[:1]
